@@ -220,6 +220,7 @@ class Oracle:
         self.would_fail_fragile = 0
         self.hanging = None       # (step, facet): trigger of finding F31, see GEOMETRIC / F31 below
         self.tolerated = None     # (step, simplex): trigger of finding F32
+        self.near_degenerate = False   # a 'gap' point (2e-8 outside a hull facet) was inserted
 
     def err(self, clause, msg, step):
         if clause in GEOMETRIC:
@@ -359,7 +360,10 @@ class Oracle:
         # empty circumspheres in the metric: for points in general position this is THE Delaunay property;
         # for degenerate inputs the same test (no vertex strictly inside, by more than 1e-6) is the weak
         # Delaunay property every triangulation produced by Bowyer-Watson must still have
-        if general or len(tri.vertices) <= 12:
+        # Not applied once a genuine sliver (non-zero volume, relative volume < 1e-8) was suppressed or a point was
+        # placed 1e-8-close to a facet on purpose: that is the regime of the documented sliver tolerance, where
+        # C03 promises the tiling only up to that tolerance and Delaunay only for points in general position.
+        if (general or len(tri.vertices) <= 12) and self.sliver == 0 and not self.near_degenerate:
             for clause, msg in X.delaunay_errors(tri, self.TF):
                 self.err(clause, msg, step)
 
@@ -390,6 +394,8 @@ def drive(d, init_pts, T, family, rng=None, nins=0, inserts=None, volume_every_s
             except Exception as e:  # noqa: BLE001
                 orc.err("state_unreadable", f"reading the triangulation raised {type(e).__name__}: {str(e)[:80]}", k - 1)
                 break
+        if kind == "gap":
+            orc.near_degenerate = True
         concrete.append({"kind": kind, "p": list(p), "hint_kind": hk, "hint": None if hint is None else list(hint)})
         before = X.snapshot(tri)
         ret = None
